@@ -59,6 +59,7 @@ def run(repo, rep, tier):
     r2b = rep.rule('C13.R2b', 'no uncalled string method in a comparison')
     r3 = rep.rule('C13.R3', 'class filters include subclasses')
     shadow_copy_rule(repo, rep)
+    no_memoised_repository_reads(repo, rep)
     mp = repo.cls(MAIN, 'MainProvider')
 
     def scope(f):
@@ -634,3 +635,46 @@ def _filter_monotone(rep, r4, mp, funcs):
                     '(None is filtered too), or setting it can add results'
                     % (conds, name))
     return nuses
+
+
+def no_memoised_repository_reads(repo, rep):
+    """C13.R6: the mock server's functions compute their answers from the
+    repository as it is now.  A functools cache on a function that takes
+    the provider (self) or a store as an argument returns what the
+    repository held when the key was first used: once a filter class has
+    been expanded to its subclasses, classes added below it later are not
+    seen by ResultClass / AssocClass filters (results missing, traversal no
+    longer symmetric)."""
+    r6 = rep.rule('C13.R6', 'functions of the mock server that read the '
+                  'repository are not memoised')
+    CACHES = ('lru_cache', 'cache', 'cached_property', 'memoize', 'memoized')
+    nfun = 0
+    for rel, m in sorted(repo.modules.items()):
+        if not m.relpath.startswith('pywbem_mock/'):
+            continue
+        for f in m.all_funcs():
+            nfun += 1
+            for d in f.node.decorator_list:
+                fn = d.func if isinstance(d, ast.Call) else d
+                name = (dotted(fn) or '').split('.')[-1]
+                if name in CACHES:
+                    r6.sites += 1
+                    r6.ob(False, f.qualname)
+                    rep.finding(r6, f.qualname, '@' + norm(d, 50),
+                                'memoised', m.relpath, f.node.lineno,
+                                '%s is memoised with %s, keyed by its '
+                                'arguments (the provider / store objects '
+                                'live as long as the connection): later '
+                                'changes of the repository (classes or '
+                                'instances added, modified, deleted) are '
+                                'not reflected in its results'
+                                % (f.qualname, name))
+    r6.sites += 1
+    r6.ob(nfun > 200, 'functions-scanned', {'functions': nfun})
+    if nfun < 200:
+        raise AnalysisError('pywbem_mock: only %d functions scanned' % nfun)
+    # positive control: the recogniser sees a decorated function
+    probe = ast.parse('@lru_cache(maxsize=None)\ndef f(self, a):\n    pass')
+    d = probe.body[0].decorator_list[0]
+    if (dotted(d.func) or '').split('.')[-1] not in CACHES:
+        raise AnalysisError('C13.R6 recogniser broken')
